@@ -192,8 +192,43 @@ func (o *Obligation) queryWith(withModel bool, keep map[int]bool) string {
 }
 
 func runSolver(s solverSpec, file string, timeoutS int) (string, string, int64) {
+	return runSolverCtx(context.Background(), s, file, timeoutS)
+}
+
+// raceSolvers runs every back end on the same query at once and returns the first definitive
+// answer (sat/unsat); the others are killed. Without one, all answers are reported.
+func raceSolvers(file string, timeoutS int) (winner solverSpec, result, text string, all []string, ms int64) {
+	ctx, cancel := context.WithCancel(context.Background())
+	defer cancel()
+	type ans struct {
+		s    solverSpec
+		r, t string
+		ms   int64
+	}
+	ch := make(chan ans, len(solvers))
+	for _, s := range solvers {
+		go func(s solverSpec) {
+			r, t, m := runSolverCtx(ctx, s, file, timeoutS)
+			ch <- ans{s, r, t, m}
+		}(s)
+	}
+	for range solvers {
+		a := <-ch
+		if a.ms > ms {
+			ms = a.ms
+		}
+		if a.r == "sat" || a.r == "unsat" {
+			return a.s, a.r, a.t, nil, a.ms
+		}
+		all = append(all, a.s.name+":"+a.r)
+	}
+	sort.Strings(all)
+	return solverSpec{}, "", "", all, ms
+}
+
+func runSolverCtx(parent context.Context, s solverSpec, file string, timeoutS int) (string, string, int64) {
 	t0 := time.Now()
-	ctx, cancel := context.WithTimeout(context.Background(), time.Duration(timeoutS+5)*time.Second)
+	ctx, cancel := context.WithTimeout(parent, time.Duration(timeoutS+5)*time.Second)
 	defer cancel()
 	args := s.cmd(file, timeoutS)
 	cmd := exec.CommandContext(ctx, args[0], args[1:]...)
@@ -301,50 +336,71 @@ func discharge(obs []*Obligation, opt solveOpts) {
 			}
 			os.WriteFile(file, []byte(o.query(false)), 0o644)
 			defer os.Remove(file)
-			for si, s := range solvers {
-				to := opt.timeoutS
-				if o.Cover {
-					to = 4
+			if !o.Cover {
+				// stage 1: the first back end with a short budget decides most obligations in milliseconds;
+				// stage 2: all back ends race on what is left (each is unstable on some queries the others
+				// decide at once, and running them one after the other would triple the waiting time)
+				short := 3
+				if opt.timeoutS < short {
+					short = opt.timeoutS
 				}
-				r, _, ms := runSolver(s, file, to)
+				r, text, ms := runSolver(solvers[0], file, short)
 				o.Ms += ms
-				results = append(results, s.name+":"+r)
-				if o.Cover {
-					// a cover only needs one solver to fail to refute it
-					if r != "unsat" {
-						o.Result, o.Backend = "reachable("+r+")", s.name
-						return
-					}
-					if si == 0 {
-						continue // confirm vacuity with a second solver
-					}
-					o.Result, o.Backend = "vacuous", strings.Join(results, ",")
-					return
+				win := solvers[0]
+				if r != "unsat" && r != "sat" {
+					var all []string
+					var ms2 int64
+					win, r, text, all, ms2 = raceSolvers(file, opt.timeoutS)
+					o.Ms += ms2
+					results = append(results, all...)
 				}
+				_ = text
 				if r == "unsat" {
-					o.Result, o.Backend = "unsat", s.name
-					if opt.thorough && si == 0 {
-						// cross-check with the other z3
-						r2, _, ms2 := runSolver(solvers[1], file, opt.timeoutS)
-						o.Ms += ms2
+					o.Result, o.Backend = "unsat", win.name
+					if opt.thorough {
+						// cross-check with another back end
+						other := solvers[1]
+						if win.name == other.name {
+							other = solvers[0]
+						}
+						r2, _, ms3 := runSolver(other, file, opt.timeoutS)
+						o.Ms += ms3
 						if r2 == "sat" {
-							o.Result, o.Backend = "sat", "disagreement:"+s.name+"=unsat,"+solvers[1].name+"=sat"
+							o.Result, o.Backend = "sat", "disagreement:"+win.name+"=unsat,"+other.name+"=sat"
 						} else {
-							o.Backend += "+" + solvers[1].name + ":" + r2
+							o.Backend += "+" + other.name + ":" + r2
 						}
 					}
 					return
 				}
 				if r == "sat" {
-					o.Result, o.Backend = "sat", s.name
+					o.Result, o.Backend = "sat", win.name
 					// fetch a model
 					mfile := file + ".m.smt2"
 					os.WriteFile(mfile, []byte(o.query(true)), 0o644)
-					_, text, _ := runSolver(s, mfile, opt.timeoutS)
+					_, mtext, _ := runSolver(win, mfile, opt.timeoutS)
 					os.Remove(mfile)
-					o.Model = text
+					o.Model = mtext
 					return
 				}
+			}
+			for si, s := range solvers {
+				if !o.Cover {
+					break
+				}
+				r, _, ms := runSolver(s, file, 4)
+				o.Ms += ms
+				results = append(results, s.name+":"+r)
+				// a cover only needs one solver to fail to refute it
+				if r != "unsat" {
+					o.Result, o.Backend = "reachable("+r+")", s.name
+					return
+				}
+				if si == 0 {
+					continue // confirm vacuity with a second solver
+				}
+				o.Result, o.Backend = "vacuous", strings.Join(results, ",")
+				return
 			}
 			if !o.Cover && trySlice(false, 10) {
 				return
